@@ -46,6 +46,7 @@ pub fn ctr_counts() -> [u8; 6] { unsafe { CTR } }
 
 pub type Off = i64;
 pub type Flt = f64;
+pub const HIGH: u8 = 200;
 
 /// adversarial field type: it has INHERENT methods with the names of the trait methods the generated code
 /// calls (clone, eq, cmp, hash, default, into, fmt, ...), each doing the wrong thing, next to correct trait
@@ -250,7 +251,7 @@ impl Src for RandSrc {
 /// structural sameness (f32/f64 by bits) used by value oracles
 pub trait Same { fn same(&self, o: &Self) -> bool; }
 macro_rules! same_eq { ($($t:ty),*) => { $(impl Same for $t { fn same(&self, o: &Self) -> bool { self == o } })* } }
-same_eq!(u8, u16, u32, u64, usize, i8, i16, i32, i64, isize, bool, char, (), &'static str, String, crate::m::K, crate::m::W, Option<u8>, [u8; 4], [u8; 2], &'static u8, &'static [u8; 2], crate::m::Adv);
+same_eq!(u8, u16, u32, u64, usize, i8, i16, i32, i64, isize, bool, char, (), &'static str, String, crate::m::K, crate::m::W, Option<u8>, [u8; 4], [u8; 2], &'static u8, &'static [u8; 2], crate::m::Adv, Option<bool>);
 impl Same for f32 { fn same(&self, o: &Self) -> bool { self.to_bits() == o.to_bits() } }
 impl Same for f64 { fn same(&self, o: &Self) -> bool { self.to_bits() == o.to_bits() } }
 impl<const ID: usize> Same for crate::m::Ctr<ID> { fn same(&self, o: &Self) -> bool { self.0 == o.0 } }
